@@ -23,6 +23,10 @@ pub trait CopyOps<T> : TooDeeOpsMut<T> {
     fn copy_from_slice(&mut self, src: &[T]) where T: Copy {
         let cols = self.num_cols();
         assert_eq!(cols * self.num_rows(), src.len());
+        // an empty array has no rows to copy to (and `chunks_exact(0)` would panic)
+        if cols == 0 {
+            return;
+        }
         for (d, s) in self.rows_mut().zip(src.chunks_exact(cols)) {
             d.copy_from_slice(s)
         }
@@ -42,6 +46,10 @@ pub trait CopyOps<T> : TooDeeOpsMut<T> {
     fn clone_from_slice(&mut self, src: &[T]) where T: Clone {
         let cols = self.num_cols();
         assert_eq!(cols * self.num_rows(), src.len());
+        // an empty array has no rows to clone to (and `chunks_exact(0)` would panic)
+        if cols == 0 {
+            return;
+        }
         for (d, s) in self.rows_mut().zip(src.chunks_exact(cols)) {
             d.clone_from_slice(s)
         }
